@@ -19,7 +19,8 @@ MANIFEST = {
 }
 
 THEOREMS = ["C14_static_text_roundtrip", "C14_static_text_no_binding_start", "C14_static_text_no_special",
-            "C14_legacy_static_text_becomes_binding", "C14_string_literal_roundtrip"]
+            "C14_legacy_static_text_becomes_binding", "C14_string_literal_roundtrip",
+            "C14_printer_tables_ok", "C14_printer_paren_decision", "C14_text_piece_then_binding"]
 
 
 def _norm_nodes(nodes):
@@ -59,6 +60,16 @@ def run(res):
     ok, what = (True, "")
     if THEOREMS:
         ok, what = proof_phase(res, "C14", THEOREMS)
+    # the expression printer: implementation text = Coq model (Model/StrExpr.v) on every generated expression
+    import exprtext
+    rt = exprtext.run(res.tier, res.seed, "C14")
+    n_sx = 0
+    for (c, i, m) in rt["mismatches"]:
+        if c.startswith("strexpr\t"):
+            n_sx += 1
+            if n_sx <= 3:
+                res.violation("the stringifier prints an expression differently from the Coq model of stringify/expr.rs: impl=%s model=%s" % (
+                    dec(i)[:200] if i != "STATIC" else i, dec(m)[:200] if m != "STATIC" else m), {"case": c.split("\t")}, no_input=True)
     p = harness_run(["strfy", res.tier, res.seed], timeout=3000)
     jobs_in = [json.loads(l) for l in p.stdout.decode("utf8").split("\n") if l]
     found = 0
